@@ -158,7 +158,7 @@ pub fn gen_offset(rng: &mut crate::core::Rng) -> i32 {
 // every route agrees with the model there.
 // ------------------------------------------------------------------------------------------------
 
-/// Everything the public API says about one DateTime.
+/// Everything the public API says about one DateTime, one entry per read-out *route*.
 #[derive(Clone, Debug, PartialEq)]
 pub struct Obs {
     /// nanos_since(0001-01-01T00:00Z)
@@ -171,7 +171,19 @@ pub struct Obs {
     /// local getters: year month day day_of_year weekday hour minute second milli micro nano
     /// (None when the local time is within a day of the range ends, where getters may legitimately panic)
     pub local: Option<(i64, u32, u32, u32, u32, u32, u32, u32, u32, u32, u32)>,
+    /// routes taken out of the comparison (bit per route, see ROUTE_NAMES): their read-out disagrees with the
+    /// model at the independently built expected value, so they say nothing about the operation under judgement
+    pub masked: u16,
 }
+
+pub const ROUTE_NAMES: [&str; 15] = ["nanos_since", "timestamp+nano", "get_offset", "as_ymdhms", "year", "month", "day", "day_of_year", "weekday", "hour", "minute", "second", "milli", "micro", "nano"];
+const R_NS: u16 = 1 << 0;
+const R_TS: u16 = 1 << 1;
+const R_OFF: u16 = 1 << 2;
+const R_UTC: u16 = 1 << 3;
+
+/// How often each route was masked (all workers); reported as bins by core::result_json.
+pub static ROUTE_MASKED: [std::sync::atomic::AtomicU64; 15] = [const { std::sync::atomic::AtomicU64::new(0) }; 15];
 
 fn local_ok(i: i128, off: i32) -> bool {
     let l = i + off as i128 * NS;
@@ -191,6 +203,7 @@ pub fn observe(dt: &DateTime, with_local: bool) -> Obs {
         } else {
             None
         },
+        masked: 0,
     }
 }
 
@@ -209,12 +222,87 @@ pub fn model_observe(i: i128, off: i32) -> Obs {
         } else {
             None
         },
+        masked: 0,
     }
 }
 
-/// Builds the value for (instant, offset) through the public API and returns it only if every
-/// read-out route agrees with the model there ("sane": construction and read-outs are trustworthy
-/// at this point). `ignore_ns_since`: for the property that owns `*_since`.
+impl Obs {
+    fn local_arr(&self) -> Option<[i64; 11]> {
+        self.local.map(|l| [l.0, l.1 as i64, l.2 as i64, l.3 as i64, l.4 as i64, l.5 as i64, l.6 as i64, l.7 as i64, l.8 as i64, l.9 as i64, l.10 as i64])
+    }
+    /// Bit per route on which the two observations differ.
+    pub fn mismatch_bits(&self, m: &Obs) -> u16 {
+        let mut b = 0u16;
+        if self.ns_since != m.ns_since {
+            b |= R_NS;
+        }
+        if self.via_ts != m.via_ts {
+            b |= R_TS;
+        }
+        if self.off != m.off {
+            b |= R_OFF;
+        }
+        if self.utc != m.utc {
+            b |= R_UTC;
+        }
+        match (self.local_arr(), m.local_arr()) {
+            (Some(a), Some(c)) => {
+                for k in 0..11 {
+                    if a[k] != c[k] {
+                        b |= 1 << (4 + k);
+                    }
+                }
+            }
+            (None, None) => {}
+            _ => b |= 0x7FF << 4,
+        }
+        b
+    }
+    /// Replaces the masked routes by neutral constants (so that equality, first_difference and to_json keep working).
+    pub fn neutralize(&mut self, masked: u16) {
+        self.masked = masked;
+        if masked & R_NS != 0 {
+            self.ns_since = 0;
+        }
+        if masked & R_TS != 0 {
+            self.via_ts = 0;
+        }
+        if masked & R_UTC != 0 {
+            self.utc = (0, 0, 0, 0, 0, 0);
+        }
+        if let Some(l) = self.local_arr() {
+            let mut l = l;
+            for k in 0..11 {
+                if masked & (1 << (4 + k)) != 0 {
+                    l[k] = 0;
+                }
+            }
+            self.local = Some((l[0], l[1] as u32, l[2] as u32, l[3] as u32, l[4] as u32, l[5] as u32, l[6] as u32, l[7] as u32, l[8] as u32, l[9] as u32, l[10] as u32));
+        }
+    }
+    pub fn masked_names(&self) -> Vec<&'static str> {
+        (0..15).filter(|k| self.masked & (1 << k) != 0).map(|k| ROUTE_NAMES[k]).collect()
+    }
+}
+
+/// Is a freshly built value trustworthy, given on which routes it disagrees with the model?  The offset must read
+/// back, at least one of the two instant routes must agree, and of the three structural routes (nanos_since,
+/// timestamp, as_ymdhms) at most one may disagree: a single broken read-out is masked, whereas a wrongly
+/// *constructed* value (another property's defect) shows on several routes at once and is not trusted.
+fn trusted(bits: u16, ignore_ns_since: bool) -> bool {
+    let bits = if ignore_ns_since { bits & !R_NS } else { bits };
+    if bits & R_OFF != 0 {
+        return false;
+    }
+    let instant_ok = (bits & R_TS == 0) || (!ignore_ns_since && bits & R_NS == 0);
+    let structural_bad = (bits & R_NS != 0) as u32 + (bits & R_TS != 0) as u32 + (bits & R_UTC != 0) as u32;
+    instant_ok && structural_bad <= 1
+}
+
+/// Builds the value for (instant, offset) through the public API and returns it only if it is trustworthy there
+/// (see `trusted`). Routes whose read-out disagrees with the model at this very value are *masked*: the
+/// returned observation carries neutral constants for them and says so in `masked`.
+/// `ignore_ns_since`: for the property that owns `*_since`.
 pub fn sane_value_opt(i: i128, off: i32, ignore_ns_since: bool) -> Option<(DateTime, Obs)> {
     if !representable(i) {
         return None;
@@ -230,18 +318,24 @@ pub fn sane_value_opt(i: i128, off: i32, ignore_ns_since: bool) -> Option<(DateT
         (dt, o)
     });
     match r {
-        Ok((dt, o)) => {
-            let mut m = model_observe(i, off);
-            let mut oo = o.clone();
+        Ok((dt, mut o)) => {
+            let m = model_observe(i, off);
+            let mut bits = o.mismatch_bits(&m);
             if ignore_ns_since {
-                m.ns_since = 0;
-                oo.ns_since = 0;
+                bits |= R_NS;
             }
-            if oo == m {
-                Some((dt, o))
-            } else {
-                None
+            if !trusted(bits, ignore_ns_since) {
+                return None;
             }
+            if bits != 0 {
+                for k in 0..15 {
+                    if bits & (1 << k) != 0 && !(ignore_ns_since && k == 0) {
+                        ROUTE_MASKED[k].fetch_add(1, std::sync::atomic::Ordering::Relaxed);
+                    }
+                }
+                o.neutralize(bits);
+            }
+            Some((dt, o))
         }
         Err(_) => None,
     }
@@ -261,20 +355,22 @@ pub enum Diff {
 }
 
 /// Compares `res` (already produced by the operation under judgement) with an independently
-/// built value of (target, off), through the same routes. Call inside `trap` is not needed: traps itself.
+/// built value of (target, off), through the same routes (minus the routes masked at the expected value).
+/// Call inside `trap` is not needed: traps itself.
 pub fn diff_with_expected(res: &DateTime, target: i128, off: i32) -> Result<Diff, crate::core::Panic> {
     let exp = match sane_value(target, off) {
         Some((_, e)) => e,
         None => return Ok(Diff::Skip),
     };
     let with_local = exp.local.is_some();
-    let got = crate::core::trap(|| observe(res, with_local))?;
+    let mut got = crate::core::trap(|| observe(res, with_local))?;
+    got.neutralize(exp.masked);
     Ok(if got == exp { Diff::Same } else { Diff::Differs(Box::new(got), Box::new(exp)) })
 }
 
 impl Obs {
     pub fn to_json(&self) -> serde_json::Value {
-        serde_json::json!({"nanos_since": show(self.ns_since), "timestamp+nano": show(self.via_ts), "offset": self.off, "as_ymdhms": format!("{:?}", self.utc), "getters(y,m,d,doy,wd,h,mi,s,ms,us,ns)": self.local.map(|l| format!("{:?}", l))})
+        serde_json::json!({"nanos_since": show(self.ns_since), "timestamp+nano": show(self.via_ts), "offset": self.off, "as_ymdhms": format!("{:?}", self.utc), "getters(y,m,d,doy,wd,h,mi,s,ms,us,ns)": self.local.map(|l| format!("{:?}", l)), "routes_masked(read-out disagrees with the model at the expected value)": self.masked_names()})
     }
     /// Which aspect differs first (for signatures).
     pub fn first_difference(&self, exp: &Obs) -> &'static str {
